@@ -5,13 +5,18 @@ WT=${1:-/tmp/wt_self}
 cd /repo && (git worktree list | grep -q "$WT" || git worktree add -q --detach "$WT" HEAD)
 PROPS="C01 C02 C03 C04 C05 C06 C07 C08 C09 C10 C11 C12 C13 C14 C16 C17 C18 C19 C20"
 fail=0
+# run from a snapshot of /verif's code (sharing .work and the driver), so that editing /verif meanwhile does not disturb the run
+SNAP=$(mktemp -d /tmp/verif_snap.XXXXXX)
+rsync -a --exclude .work --exclude .git --exclude ptfacts --exclude out --exclude evidence /verif/ "$SNAP"/
+ln -s /verif/.work "$SNAP/.work"; ln -s /verif/ptfacts "$SNAP/ptfacts"
 for p in /verif/selftest/benign/*.patch; do
   (cd "$WT" && git checkout -q -- . && git apply "$p") || { echo "APPLY-FAIL $p"; continue; }
   for prop in $PROPS; do
-    out=$(cd /verif && PT_REPO="$WT" ./check $prop 2>&1); rc=$?
+    out=$(cd "$SNAP" && PT_REPO="$WT" ./check $prop 2>&1); rc=$?
     if [ $rc -ne 0 ]; then fail=1; echo "FALSE-ALARM $(basename $p) $prop"; echo "$out" | grep -E "^  [RBI]" | cut -c1-260 | head -4; fi
   done
   echo "done $(basename $p)"
 done
 (cd "$WT" && git checkout -q -- .)
+rm -rf "$SNAP"
 exit $fail
